@@ -318,6 +318,19 @@ func TestCheck(t *testing.T) {
 			Family string `json:"family"`
 		}
 		r.DecodeReplay(&probe)
+		if probe.Family == "real-program" {
+			var rc RealCase
+			r.DecodeReplay(&rc)
+			k, d := executeReal(rc)
+			r.Eval(1)
+			r.Transition(len(rc.Sizes) + 2)
+			if k == "inconclusive" {
+				r.Inconclusive(rc.String() + ": " + d)
+			} else if k != "" {
+				r.Fail(k+"|"+rc.Carrier, fmt.Sprintf("%s: %s", rc, d), len(rc.Sizes), rc)
+			}
+			return
+		}
 		if probe.Family == "dns-close" {
 			var dc DnsCloseCase
 			r.DecodeReplay(&dc)
@@ -409,6 +422,7 @@ func TestCheck(t *testing.T) {
 			r.Fail(k, fmt.Sprintf("%s: %s", dc, d), dc.Up+dc.Down, dc)
 		}
 	}
+	realProgramCases(r, base+len(ws)+5000)
 	r.Note("cases_total", len(all))
 	r.Note("ws_tunnel_cases", len(ws))
 }
